@@ -92,7 +92,9 @@ pub fn check_program(name: &str, p: &Program, acc: &mut Acc) {
         );
     }
     // every label of a call target maps to the function of its entry
-    for f in &gv.funcs {
+    for (fi, f) in gv.funcs.iter().enumerate() {
+        // does this function share instructions with another one?
+        let ov = if gv.funcs.iter().enumerate().any(|(gi, g)| gi != fi && g.nodes.intersection(&f.nodes).next().is_some()) { "overlapping" } else { "disjoint" };
         // ---- (2) members == reachable set
         let mut reach = BTreeSet::new();
         let mut q = VecDeque::from([f.entry]);
@@ -106,7 +108,7 @@ pub fn check_program(name: &str, p: &Program, acc: &mut Acc) {
         if reach != f.nodes {
             let dir = if f.nodes.difference(&reach).next().is_some() { "too-many" } else { "too-few" };
             acc.violation(
-                format!("C11|members|{dir}|{name}"),
+                format!("C11|members|{dir}|{ov}|{name}"),
                 format!("function {:?}: attributed nodes {:?}, reachable from its entry {:?}", f.labels, f.nodes, reach),
                 replay.clone(),
             );
@@ -115,7 +117,7 @@ pub fn check_program(name: &str, p: &Program, acc: &mut Acc) {
         let ex = &gv.nodes[f.exit];
         if !reach.contains(&f.exit) || !ex.is_return {
             acc.violation(
-                format!("C11|exit|not-a-reached-return|{name}"),
+                format!("C11|exit|not-a-reached-return|{ov}|{name}"),
                 format!("function {:?}: exit `{}` (line {}) is not a return it reaches", f.labels, ex.render, ex.line + 1),
                 replay.clone(),
             );
@@ -129,7 +131,7 @@ pub fn check_program(name: &str, p: &Program, acc: &mut Acc) {
                 let leads_to_owner_exit = nd.funcs.iter().any(|g| nd.nexts.contains(&gv.funcs[*g].exit));
                 if !leads_to_owner_exit || nd.is_return {
                     acc.violation(
-                        format!("C11|exit|return-not-merged|{name}"),
+                        format!("C11|exit|return-not-merged|{ov}|{name}"),
                         format!("function {:?}: return on line {} does not lead to the function's exit", f.labels, nd.line + 1),
                         replay.clone(),
                     );
@@ -183,7 +185,7 @@ pub fn run(ctx: &Ctx) -> i32 {
     );
     rep.assume("programs whose analysis fails (function without reachable return, undefined label) are C16's subject and are excluded here");
     let per_shard = ctx.tier.pick(25, 1500);
-    let acc = run_sharded(ctx.jobs, |shard| {
+    let acc = run_sharded(ctx, |shard| {
         let mut acc = Acc::new();
         for k in 0..per_shard {
             let mut rng = Rng::derive(ctx.seed, 11_000 + shard as u64, k as u64);
@@ -197,6 +199,7 @@ pub fn run(ctx: &Ctx) -> i32 {
                     1 => (Profile::conforming(), Some(Inject::FallThrough), "generated:fall-through"),
                     2 => (Profile::conforming(), Some(Inject::FirstIsFunction), "generated:first-line-function"),
                     3 => (Profile::conforming(), None, "generated:conforming"),
+                    4 => (Profile::wild_static(), None, "generated:wild-branches-into-functions"),
                     _ => (Profile::wild(), None, "generated:wild"),
                 };
                 let g = gen::generate(&mut rng, &prof, inject);
